@@ -66,9 +66,30 @@ def eval_branches(ev_fn):
     return out, p_node
 
 
-def branch_body_nodes(st: ast.If):
+def branch_body_nodes(st: ast.If, node_var: str = "node", _depth: int = 0):
+    """Nodes of a branch of _eval; when the branch hands the node on to another method of the matcher (`return self._generator_values(node)`),
+    the nodes of that method too, with its parameter renamed to the branch's node variable (the handling of the kind simply lives there)."""
+    from ..core import copy_ast
+
     for s0 in st.body:
-        yield from ast.walk(s0)
+        for n in ast.walk(s0):
+            yield n
+            if _depth < 3 and isinstance(n, ast.Call) and isinstance(n.func, ast.Attribute) and isinstance(n.func.value, ast.Name) and n.func.value.id == "self" \
+                    and n.func.attr in METHODS_FOR_ELEMENTS:
+                m = METHODS_FOR_ELEMENTS[n.func.attr]
+                mp = func_params(m)[1:]
+                for i, a in enumerate(n.args):
+                    if isinstance(a, ast.Name) and a.id == node_var and i < len(mp):
+                        body = ast.If(test=ast.Constant(value=True), body=[copy_ast(x) for x in m.body], orelse=[])
+                        for x in ast.walk(body):
+                            if isinstance(x, ast.Name) and x.id == mp[i]:
+                                x.id = node_var
+                            if not hasattr(x, "_module") and hasattr(m, "_module"):
+                                x._module = m._module
+                        for x in ast.walk(body):
+                            for ch in ast.iter_child_nodes(x):
+                                ch._parent = x
+                        yield from branch_body_nodes(body, node_var, _depth + 1)
 
 
 def field_reads(nodes, var):
@@ -233,14 +254,14 @@ def run(ctx):
         cls = getattr(ast, k, None)
         if cls is None:
             raise AnalysisError(f"R7.1: ast.{k} does not exist in this interpreter")
-        nodes = list(branch_body_nodes(st))
+        nodes = list(branch_body_nodes(st, p_node))
         reads = field_reads(nodes, p_node)
         readers = [(nodes, p_node)]
         # a kind that is also reached as the element of a parent's list field (comprehension in GeneratorExp.generators)
         # is read partly in its own branch and partly through the parent's element variables
         for (kk, lf), sub in SUBKINDS.items():
             if sub == k and kk in handled:
-                pnodes = list(branch_body_nodes(handled[kk]))
+                pnodes = list(branch_body_nodes(handled[kk], p_node))
                 elems, _ = element_vars(pnodes, p_node, lf)
                 for v in elems:
                     readers.append((pnodes, v))
